@@ -266,7 +266,11 @@ func (s *scheduler) spawn(fn value, args []value, pos string) {
 		s.i.incomplete("goroutine budget exceeded")
 	}
 	g := &goroutine{id: len(s.gs), wake: make(chan struct{}, 1), state: gRunnable, createdAt: pos}
+	if s.cur.vc.get(s.cur.id) == 0 {
+		s.cur.vc = s.cur.vc.inc(s.cur.id)
+	}
 	g.vc = s.cur.vc.fork(s.cur.id, g.id)
+	s.cur.vc = s.cur.vc.inc(s.cur.id) // what the parent does after the go statement is not ordered before the child
 	s.gs = append(s.gs, g)
 	i := s.i
 	go func() {
